@@ -170,8 +170,9 @@ func lagActor(c *vkit.Case, rnd *vkit.Rand, actor, trials int, fires *atomic.Int
 		}
 		r.Count("lag: Stop aimed at the second firing of a ticker nobody reads", aim, 1)
 		if pan != nil {
-			r.Count("outside the statement / lenient (not judged)", "first Stop panicked: "+pan.Msg, 1)
-			continue
+			c.Violation("stop-panics", fmt.Sprintf("Stop() of a JitterTicker(%s, 0) panicked: %s", d, pan.Msg), map[string]any{"d_ns": int64(d), "panic": pan.Msg})
+			found.Store(true)
+			return
 		}
 		if drained {
 			r.Count("lag", "a tick was in the channel right after Stop (taken out)", 1)
